@@ -484,6 +484,152 @@ fn check(case: &Case, ctx: &mut Ctx) {
     let _ = pick_idx(0, 1);
 }
 
+
+// ------------------------------------------------------------------------------------------------
+// section sequence: several uploads to ONE node. The statement judges every upload on its own proof
+// ("the payment is confirmed by the payment contract"): what an earlier upload established — a
+// confirmation of this node's quote, a stored-and-pruned record — must not carry over.
+// ------------------------------------------------------------------------------------------------
+
+#[derive(Clone, Debug, Serialize, Deserialize)]
+pub struct SeqStep {
+    /// scratchpads only: false = the payload is signed by a foreign key (rejected after the payment step)
+    pub payload_valid: bool,
+    pub own_paid: bool,
+    pub others_paid: [bool; 2],
+    pub rpc: Rpc,
+    /// the proof carries this node's quote of the FIRST step again (clients re-send proofs)
+    pub reuse_own_quote: bool,
+    /// afterwards the record is dropped from the store (pruned), so the next upload is new data again
+    pub remove_after: bool,
+}
+
+#[derive(Clone, Debug, Serialize, Deserialize)]
+pub struct SeqCase {
+    pub kind: Kind,
+    pub seed: u8,
+    pub steps: Vec<SeqStep>,
+}
+
+fn seq_strategy() -> BoxedStrategy<SeqCase> {
+    let rpc = prop_oneof![8 => Just(Rpc::Ok), 1 => Just(Rpc::Http503), 1 => Just(Rpc::RevertError)];
+    let step = (
+        prop_oneof![2 => Just(true), 1 => Just(false)],
+        prop_oneof![4 => Just(true), 1 => Just(false)],
+        prop_oneof![3 => Just([true, true]), 1 => Just([false, true]), 1 => Just([true, false]), 1 => Just([false, false])],
+        rpc,
+        prop_oneof![3 => Just(true), 1 => Just(false)],
+        prop_oneof![2 => Just(true), 1 => Just(false)],
+    )
+        .prop_map(|(payload_valid, own_paid, others_paid, rpc, reuse_own_quote, remove_after)| SeqStep { payload_valid, own_paid, others_paid, rpc, reuse_own_quote, remove_after });
+    (prop_oneof![3 => Just(Kind::Pad), 1 => Just(Kind::Chunk), 1 => Just(Kind::Tx), 1 => Just(Kind::Reg)], any::<u8>(), proptest::collection::vec(step, 2..vh_core::depth(5, 8)))
+        .prop_map(|(kind, seed, steps)| SeqCase { kind, seed, steps })
+        .boxed()
+}
+
+fn check_sequence(case: &SeqCase, ctx: &mut Ctx) {
+    let mut cl = Cluster::new(&[1], None);
+    let pl = payload(case.kind, case.seed);
+    let me = cl.nodes[0].peer;
+    let mut own_quote: Option<ant_evm::PaymentQuote> = None;
+    let (mut judged_new, mut after_confirmed, mut reused) = (0, 0, 0);
+    // this node's quote has been confirmed by the contract in an earlier step
+    let mut confirmed_before = false;
+    for (i, st) in case.steps.iter().enumerate() {
+        let pc = Case { kind: case.kind, paid: true, prior: 0, rt_peers: 4, s: SFault::Ok, p: true, k: KFault::Ok, e: EFault::Ok, o: [true; 3], rpc: Rpc::Ok, a: true, own_pos: 0, seed: case.seed.wrapping_add(i as u8 * 7) };
+        let (mut proof, _h, _k) = build_proof(&pc, &mut cl, &pl);
+        let own_pos = proof.peer_quotes.iter().position(|(p, _)| p.to_peer_id().ok() == Some(me));
+        let Some(own_pos) = own_pos else {
+            ctx.precondition_failed("own_quote_not_in_proof", String::new());
+            return;
+        };
+        if i == 0 || own_quote.is_none() {
+            own_quote = Some(proof.peer_quotes[own_pos].1.clone());
+        } else if st.reuse_own_quote {
+            proof.peer_quotes[own_pos].1 = own_quote.clone().expect("set");
+            reused += 1;
+        }
+        {
+            let mut s = cl.stub.state.lock().unwrap();
+            let mut oi = 0;
+            for (j, (_, q)) in proof.peer_quotes.iter().enumerate() {
+                let v = if j == own_pos {
+                    st.own_paid
+                } else {
+                    oi += 1;
+                    st.others_paid[(oi - 1) % 2]
+                };
+                s.verdicts.insert(q.hash().0, (v, 3 + j as u64));
+            }
+            s.outage = match st.rpc {
+                Rpc::Ok => 0,
+                Rpc::Http503 => 1,
+                Rpc::RevertError => 2,
+                Rpc::EmptyResult => 3,
+                Rpc::ConnectionClosed => 4,
+            };
+        }
+        let payload_valid = st.payload_valid || case.kind != Kind::Pad;
+        let rec = if payload_valid {
+            (pl.build)(Some(&proof))
+        } else {
+            let s = case.seed as u64;
+            let bad = fix::scratchpad(10 + s % 5, 1, fix::pseudo_bytes(s, 30), 5, fix::Sig::OtherKey);
+            fix::record(pl.key.clone(), try_serialize_record(&(proof.clone(), bad), RecordKind::ScratchpadWithPayment).unwrap().to_vec())
+        };
+        let held_before = cl.local_get(0, &pl.key).is_some();
+        let node = cl.nodes[0].node.clone();
+        let op = cl.spawn(async move { node.validate_and_store_record(rec).await.map_err(|e| format!("{e:?}")) });
+        cl.settle_op(&op);
+        cl.settle();
+        if cl.inconclusive {
+            ctx.label("inconclusive_timeout");
+            return;
+        }
+        let res = op.take().expect("finished");
+        let held_after = cl.local_get(0, &pl.key).is_some();
+        let confirmed = st.own_paid && st.others_paid.iter().all(|x| *x) && st.rpc == Rpc::Ok;
+        if !held_before {
+            judged_new += 1;
+            if confirmed_before {
+                after_confirmed += 1;
+            }
+            if held_after && !(confirmed && payload_valid) {
+                let what = if !payload_valid { "payload_not_owner_signed" } else if st.rpc != Rpc::Ok { "contract_unreachable" } else if !st.own_paid { "own_quote_unpaid" } else { "another_payees_quote_unpaid" };
+                ctx.fail(
+                    format!("stored_despite_unconfirmed_payment_in_a_later_upload/{what}"),
+                    format!("step {i} of {:?}: {:?} stored new data; own quote {} (confirmed in an earlier step: {confirmed_before}), verdicts own={} others={:?} rpc={:?}, result {res:?}", case.steps.len(), case.kind, if st.reuse_own_quote && i > 0 { "re-sent" } else { "fresh" }, st.own_paid, st.others_paid, st.rpc),
+                );
+                return;
+            }
+            if !held_after && confirmed && payload_valid {
+                ctx.precondition_failed("valid_paid_upload_rejected(sequence)", format!("step {i}: {res:?}"));
+            }
+            if !held_after && res.is_ok() {
+                ctx.fail("invalid_payment_not_rejected", format!("step {i}: nothing stored but Ok"));
+            }
+        }
+        if confirmed {
+            confirmed_before = true;
+        }
+        if st.remove_after && held_after {
+            let d = &mut cl.nodes[0].driver;
+            let k = pl.key.clone();
+            cl.rt.block_on(async move {
+                if let Some(store) = d.verif_node_store() {
+                    use libp2p::kad::store::RecordStore;
+                    store.remove(&k);
+                }
+            });
+            cl.settle();
+        }
+    }
+    ctx.label(format!("kind_{:?}", case.kind));
+    ctx.label_if(reused > 0, "own_quote_re_sent");
+    ctx.label_if(after_confirmed > 0, "new_data_upload_after_own_quote_was_confirmed");
+    ctx.nontrivial_if(after_confirmed > 0 && reused > 0 && judged_new >= 2);
+}
+
 pub fn run(cfg: RunCfg) {
     let mut rep = Report::new(cfg, "exploration");
     rep.rule = "C03: record kind (4 paid + 4 unpaid) x prior content x proof of 3 quotes with conditions S (signatures), P (payee), K (payees known as close), E (expiry), O (contract verdict), A (quoted address) toggled by construction: all true / exactly one false / several false.".into();
@@ -496,6 +642,11 @@ pub fn run(cfg: RunCfg) {
         rep, "payment", (9_000, 120_000), 16,
         "non-trivial: paid upload with all conditions true or exactly one false; distinct by (kind, paid, prior, condition vector, routing-table size)",
         case_strategy, check
+    );
+    vh_core::section!(
+        rep, "sequence", (4_000, 60_000), 16,
+        "2..4 paid uploads of one address to one node: verdicts of the contract per quote and per step, reachability, this node's first quote re-sent in later proofs, payload validity (scratchpads), record pruned between steps; every upload of new data is judged on its own proof. non-trivial: a new-data upload after this node's quote was confirmed once, with that quote re-sent",
+        seq_strategy, check_sequence
     );
     rep.finish();
 }
